@@ -1219,4 +1219,22 @@ theorem Frustum_setFovExc_error (tan : α → α) (n f fovx fovy aspect : α) (k
   simp only [Gen.C07.Frustum.setFovExc]
   split_ifs with h1 h2 <;> simp_all [eq_comm (a := Exc.domainError)]
 
+/-! ### the same pair on an object whose prior state is orthographic: the whole state is overwritten by both copies -/
+
+theorem Frustum_setFovExcFromOrtho_ok (tan : α → α) (n f fovx fovy aspect : α) (y : α × α × α × α × α × α × Bool)
+    (h : Gen.C07.Frustum.setFovExcFromOrtho tan n f fovx fovy aspect = .ok y) :
+    Gen.C07.Frustum.setFovFromOrtho tan n f fovx fovy aspect = y := by
+  simp only [Gen.C07.Frustum.setFovExcFromOrtho, Gen.C07.Frustum.setFovFromOrtho] at h ⊢
+  split_ifs at h ⊢ <;> exact Except.ok.inj h
+
+/-- re-initialising an orthographic frustum gives exactly what initialising a fresh one gives (the flag is reset): `set` -/
+theorem Frustum_setFovFromOrtho_eq (tan : α → α) (n f fovx fovy aspect : α) :
+    Gen.C07.Frustum.setFovFromOrtho tan n f fovx fovy aspect = Gen.C07.Frustum.setFov tan n f fovx fovy aspect := by
+  simp only [Gen.C07.Frustum.setFovFromOrtho, Gen.C07.Frustum.setFov]
+
+/-- … and `setExc` -/
+theorem Frustum_setFovExcFromOrtho_eq (tan : α → α) (n f fovx fovy aspect : α) :
+    Gen.C07.Frustum.setFovExcFromOrtho tan n f fovx fovy aspect = Gen.C07.Frustum.setFovExc tan n f fovx fovy aspect := by
+  simp only [Gen.C07.Frustum.setFovExcFromOrtho, Gen.C07.Frustum.setFovExc]
+
 end ImathVerif.C07
